@@ -18,6 +18,13 @@ TRUSTED_BASE = [
 ]
 
 
+def OUTDIR(kind):
+    """evidence / replays go to /verif/<kind>; experiments against a scratch copy of the repository (VERIF_REPO,
+    seeded changes) set VERIF_OUT so that they do not overwrite the evidence of the real tree"""
+    base = os.environ.get("VERIF_OUT")
+    return os.path.join(base, kind) if base else os.path.join(VERIF, kind)
+
+
 def sh(cmd, timeout, cwd=None):
     return subprocess.run(cmd, shell=True, capture_output=True, text=True, timeout=timeout, cwd=cwd)
 
@@ -75,9 +82,9 @@ def check_props_file(relpath, workdir, tier):
                stderr=r.stderr[-2000:], cmd="coqc -R coq GT %s (after make -C coq)" % relpath)
     if tier == "thorough" and ok:
         vo = relpath[:-2].replace("/", ".")
-        rc = sh("timeout 3000 coqchk -silent -o -R %s GT GT.%s 2>&1 | tail -60" % (COQ, vo), 3100, cwd=COQ)
+        rc = sh("timeout 3000 coqchk -silent -o -R %s GT GT.%s 2>&1" % (COQ, vo), 3100, cwd=COQ)
         res["coqchk"] = rc.stdout[-3000:]
-        res["coqchk_ok"] = ("Modules were successfully checked" in rc.stdout)
+        res["coqchk_ok"] = (rc.returncode == 0 and "CONTEXT SUMMARY" in rc.stdout)
     return res
 
 
@@ -91,9 +98,9 @@ def fingerprint(desc):
 
 
 def write_replay(prop, payload):
-    os.makedirs(os.path.join(VERIF, "replays"), exist_ok=True)
+    os.makedirs(OUTDIR("replays"), exist_ok=True)
     h = hashlib.sha1(json.dumps(payload, sort_keys=True, default=str).encode()).hexdigest()[:10]
-    path = os.path.join(VERIF, "replays", "%s-%s.json" % (prop, h))
+    path = os.path.join(OUTDIR("replays"), "%s-%s.json" % (prop, h))
     json.dump(payload, open(path, "w"), indent=1, default=str)
     return path
 
@@ -321,10 +328,10 @@ def main(argv=None):
         ),
         assumptions=getattr(mod, "ASSUMPTIONS", []),
         wall_s=round(time.time() - t_start, 1), violations=n_viol)
-    os.makedirs(os.path.join(VERIF, "evidence"), exist_ok=True)
-    tmp = os.path.join(VERIF, "evidence", ".%s.json.tmp" % prop)
+    os.makedirs(OUTDIR("evidence"), exist_ok=True)
+    tmp = os.path.join(OUTDIR("evidence"), ".%s.json.tmp" % prop)
     json.dump(ev, open(tmp, "w"), indent=1, default=str)
-    os.replace(tmp, os.path.join(VERIF, "evidence", "%s.json" % prop))
+    os.replace(tmp, os.path.join(OUTDIR("evidence"), "%s.json" % prop))
     for ln in lines:
         print(ln)
     print("%s tier=%s seed=%d: theorems %d/%d, cases %d (nontrivial distinct %d), agree %d, max rel err %.2e, impl %.0fs, model %.0fs, wall %.0fs"
